@@ -512,20 +512,20 @@ Proof.
     + destruct (eval s r e3) as [y|] eqn:Ey; [|discriminate]. injection EV as <-. apply B. reflexivity.
   - (* GREATEST *)
     ev2 e1 e2. destruct (negb (is_integer (type_of s e1) && is_integer (type_of s e2))); [discriminate|]. destruct (IHe1 _ eq_refl) as [N1 _]. destruct (IHe2 _ eq_refl) as [N2 _]. cbn [nullable type_of well_typed]. split.
-    + intros Hn. tt. specialize (N1 ltac:(assumption)). specialize (N2 ltac:(assumption)). destruct va; try discriminate; destruct vb; try discriminate. apply fit_typed in EV. tauto.
+    + intros Hn. tt. specialize (N1 ltac:(assumption)). specialize (N2 ltac:(assumption)). destruct va; try discriminate; destruct vb; try discriminate. (destruct (flt_exact _ _); [|discriminate]). apply fit_typed in EV. tauto.
     + intros W. tt.
       assert (Ia : is_integer (type_of s e1) = true) by assumption. assert (Ib : is_integer (type_of s e2) = true) by assumption.
       rewrite (greatest_int _ _ Ia Ib).
       destruct va; try discriminate; try (injection EV as <-; reflexivity); destruct vb; try discriminate; try (injection EV as <-; reflexivity).
-      apply fit_typed in EV. tauto.
+      (destruct (flt_exact _ _); [|discriminate]). apply fit_typed in EV. tauto.
   - (* LEAST *)
     ev2 e1 e2. destruct (negb (is_integer (type_of s e1) && is_integer (type_of s e2))); [discriminate|]. destruct (IHe1 _ eq_refl) as [N1 _]. destruct (IHe2 _ eq_refl) as [N2 _]. cbn [nullable type_of well_typed]. split.
-    + intros Hn. tt. specialize (N1 ltac:(assumption)). specialize (N2 ltac:(assumption)). destruct va; try discriminate; destruct vb; try discriminate. apply fit_typed in EV. tauto.
+    + intros Hn. tt. specialize (N1 ltac:(assumption)). specialize (N2 ltac:(assumption)). destruct va; try discriminate; destruct vb; try discriminate. (destruct (flt_exact _ _); [|discriminate]). apply fit_typed in EV. tauto.
     + intros W. tt.
       assert (Ia : is_integer (type_of s e1) = true) by assumption. assert (Ib : is_integer (type_of s e2) = true) by assumption.
       rewrite (greatest_int _ _ Ia Ib).
       destruct va; try discriminate; try (injection EV as <-; reflexivity); destruct vb; try discriminate; try (injection EV as <-; reflexivity).
-      apply fit_typed in EV. tauto.
+      (destruct (flt_exact _ _); [|discriminate]). apply fit_typed in EV. tauto.
   - (* CAST *)
     destruct (eval s r e) as [v|] eqn:Ea; [|discriminate]. cbn [bindr] in EV. destruct (bad_unsigned (type_of s e) v); [discriminate|]. destruct (IHe v eq_refl) as [N _].
     destruct (cast_typed _ _ _ EV) as [T Nn]. cbn [nullable type_of]. split; [|auto]. destruct t; try discriminate; auto.
